@@ -345,13 +345,10 @@ func runC14(r *fw.Run) {
 		g := fw.NewGuards(info,
 			fw.GuardSpec{Name: "no-info", Match: fw.AtomField("Nil", "resolve", "Field", "Info")},
 			fw.GuardSpec{Name: "unprotected", Match: fw.AtomField("False", "resolve", "FieldInfo", "HasAuthorizationRule")},
-			fw.GuardSpec{Name: "no-authorizer", Match: func(_ *types.Info, a fw.CondAtom) bool {
-				if a.Kind != "True" {
-					return false
-				}
-				b, ok := ast.Unparen(a.X).(*ast.BinaryExpr)
-				return ok && b.Op.String() == "&&" && mentionsField(info, b, "resolve", "Context", "authorizer") && mentionsCall(info, b, "resolve", "FieldAuthorization.preFetchEnabled")
-			}},
+			// "no authorizer" is the conjunction of two atoms; they are matched one by one so that the rule
+			// does not depend on how the conjunction is spelled (a && b, !(!a || !b), nested ifs)
+			fw.GuardSpec{Name: "authorizer-nil", Match: fw.AtomField("Nil", "resolve", "Context", "authorizer")},
+			fw.GuardSpec{Name: "prefetch-off", Match: fw.AtomCall("False", "resolve", "FieldAuthorization.preFetchEnabled")},
 			fw.GuardSpec{Name: "no-source", Match: func(_ *types.Info, a fw.CondAtom) bool {
 				return a.Kind == "Empty" && mentionsField(info, a.X, "resolve", "TypeFieldSource", "IDs")
 			}},
@@ -382,7 +379,7 @@ func runC14(r *fw.Run) {
 				}
 				if v == "false" {
 					nAllow++
-					okEdge := g.Has(st, "no-info") || g.Has(st, "unprotected") || g.Has(st, "no-authorizer") || g.Has(st, "no-source") || (g.Has(st, "decided-allow") && g.Has(st, "decide-ok"))
+					okEdge := g.Has(st, "no-info") || g.Has(st, "unprotected") || (g.Has(st, "authorizer-nil") && g.Has(st, "prefetch-off")) || g.Has(st, "no-source") || (g.Has(st, "decided-allow") && g.Has(st, "decide-ok"))
 					r.Check(okEdge, "C14-R2", "Resolvable.authorizeField/allow-edge", p.Pos(ret.Pos()), "authorizeField returns 'allow' only when the field is unprotected / no authorizer exists / no source id, or decide() returned no denial and no error",
 						"an allow exit is reachable that is neither one of the four documented no-decision edges nor the (result==nil ∧ err==nil) edge of decide(): a protected field is rendered without an allow decision")
 				} else {
@@ -869,4 +866,18 @@ func protectedBitProvenance(r *fw.Run) {
 		})
 	}
 	r.Expect("C14-R4", "authorization rule lookups in plan", m, 2)
+}
+
+// mentionsCallNamed: e contains a resolved call of a function or method with this name.
+func mentionsCallNamed(info *types.Info, e ast.Expr, name string) bool {
+	found := false
+	fw.WalkAll(e, func(n ast.Node) bool {
+		if c, ok := n.(*ast.CallExpr); ok {
+			if fn := fw.Callee(info, c); fn != nil && fn.Name() == name {
+				found = true
+			}
+		}
+		return !found
+	})
+	return found
 }
